@@ -166,6 +166,23 @@ func init() {
 		return OkV(B(buf.Bytes()))
 	})
 	regOp("sxg_read", func(a []Sx) Sx {
+		src0, spoil0 := ownedSrc(a[0].B) // read, vandalise the result, read again
+		if e0, err0 := sxg.ReadExchange(src0); err0 == nil {
+			for _, h := range []http.Header{e0.RequestHeaders, e0.ResponseHeaders} {
+				for k, vs := range h {
+					for i := range vs {
+						vs[i] = "vandal"
+					}
+					h[k] = append(vs, "more")
+				}
+				if h != nil {
+					h["X-Vandal"] = []string{"1"}
+				}
+			}
+			scribble(e0.Payload)
+			e0.RequestURI, e0.RequestMethod, e0.ResponseStatus, e0.SignatureHeaderValue = "https://vandal.test/", "POST", 599, "vandal"
+		}
+		spoil0()
 		src, spoil := ownedSrc(a[0].B)
 		e, err := sxg.ReadExchange(src)
 		spoil()
